@@ -83,12 +83,25 @@ func runSeq(prop string) *ShardResult {
 			ops := appendOps(m, [][]int{{4}, {12, 4}})
 			ops = append(ops, badAppends(m)...)
 			ops = append(ops, delShapes(m)...)
-			return append(ops, core.Op{K: "R"})
+			// clean reopen, with the same and with another configured segment size
+			return append(ops, core.Op{K: "R"}, core.Op{K: "R", U64: 1})
 		}
 	case "C13":
 		sc.Depth, sc.RealDepth = 4, 2
 		if thorough {
 			sc.Depth, sc.RealDepth = 6, 3
+		}
+		sc.Alpha = func(m *core.Model) []core.Op {
+			ops := appendOps(m, [][]int{{4}, {4, 4, 4}})
+			ops = append(ops, delOps(m, true, true)...)
+			return append(ops, core.Op{K: "R"})
+		}
+	case "C14":
+		// descriptors after Close: every sequence ends with Close; nothing may stay open
+		sc.Prop = "C05"
+		sc.Depth, sc.RealDepth = 4, 0
+		if thorough {
+			sc.Depth = 5
 		}
 		sc.Alpha = func(m *core.Model) []core.Op {
 			ops := appendOps(m, [][]int{{4}, {4, 4, 4}})
@@ -140,7 +153,11 @@ func runSeq(prop string) *ShardResult {
 		sc.Deadline = start.Add(*fBudget * time.Duration(ci+1) / time.Duration(len(cfgs)))
 		e := core.NewSeqEngine(sc, cfg, st)
 		e.Run()
-		res.Findings = append(res.Findings, e.Findings...)
+		for _, f := range e.Findings {
+			if prop != "C14" || f.Prop == "C14" {
+				res.Findings = append(res.Findings, f)
+			}
+		}
 		res.Counts["sequences"] += int64(st.Sequences)
 		res.Counts["steps"] += int64(st.Steps)
 		res.Counts["real_stack_runs"] += int64(st.RealRuns)
